@@ -51,6 +51,11 @@ ListOrders5 ==
   \cup {[list |-> <<Item("cmp", Ref("", ""), Cmp(Col("", "a"), "=", Lit(IntV(1))), "e"), ColItem("", "g", "")>>, order |-> o] :
            o \in {<<>>, <<Ord("", "g", "desc")>>, <<Ord("", "e", "asc"), Ord("", "g", "asc")>>}}
   \cup {[list |-> <<ColItem("", "c", ""), Item("cmp", Ref("", ""), Cmp(Col("", "s"), "<", Lit(StrV(<<A, B>>))), ""), ColItem("", "a", "")>>, order |-> <<>>]}
+  \* an aliased column next to an expression over the same column; two columns that take each other's names
+  \cup {[list |-> <<ColItem("", "a", "x"), Item("cmp", Ref("", ""), Cmp(Col("", "a"), "=", Lit(IntV(1))), ""), ColItem("", "s", "")>>, order |-> o] :
+           o \in {<<>>, <<Ord("", "x", "desc")>>}}
+  \cup {[list |-> <<ColItem("", "g", "a"), ColItem("", "a", "g"), Item("cmp", Ref("", ""), Cmp(Col("", "a"), ">", Lit(IntV(1))), "big")>>, order |-> o] :
+           o \in {<<>>, <<Ord("", "big", "asc"), Ord("", "g", "desc")>>}}
 LimOffs == {[limit |-> l, offset |-> o] : l \in {-1, 0, 1, 2, 5}, o \in {-1, 0, 1, 2, 5}}
 
 \* ------------------------------------------------------------------ C06
@@ -81,6 +86,10 @@ Froms6 == {<<From1("l", ""), [tbl |-> "r", alias |-> "", jt |-> jt, on |-> on]>>
           \cup {<<From1("l", ""), [tbl |-> "r", alias |-> "", jt |-> j1, on |-> on], [tbl |-> "z", alias |-> "", jt |-> j2, on |-> on2]>> :
                    j1 \in JTs, j2 \in JTs, on \in {<< <<Cmp(Col("l", "k"), "=", Col("r", "k"))>> >>}, on2 \in OnZ}
 \* aliases: the alias replaces the table name; the same table twice under two aliases
+\* the same identifier on both sides: a table joined to itself without aliases, an alias that repeats the other table's name
+FromsSame6 == {<<From1("l", ""), [tbl |-> "l", alias |-> "", jt |-> jt, on |-> << <<Cmp(Lit(IntV(1)), "=", Lit(IntV(1)))>> >>]>> : jt \in JTs}
+              \cup {<<From1("l", ""), [tbl |-> "r", alias |-> "l", jt |-> "inner", on |-> << <<Cmp(Col("", "id"), "=", Lit(IntV(2)))>> >>]>>}
+ListsSame6 == {<<Star>>, <<ColItem("", "id", "")>>, <<ColItem("l", "k", ""), ColItem("", "x", "")>>, <<ColItem("", "w", "")>>}
 FromsAlias6 == {<<From1("l", "x"), [tbl |-> "l", alias |-> "y", jt |-> jt, on |-> << <<Cmp(Col("x", "k"), op, Col("y", "id"))>> >>]>> : jt \in JTs, op \in {"=", "<"}}
                \cup {<<From1("l", "x"), [tbl |-> "r", alias |-> "", jt |-> jt, on |-> << <<Cmp(Col("x", "k"), "=", Col("r", "k"))>> >>]>> : jt \in JTs}
 Lists6 == {<<Star>>, <<ColItem("l", "id", ""), ColItem("r", "w", "")>>, <<ColItem("", "id", ""), ColItem("r", "k", "rk")>>,
@@ -129,7 +138,7 @@ Wheres7 == {<<>>, << <<Cmp(Col("", "m"), "<", Lit(IntV(100)))>> >>, << <<Cmp(Col
 Out(name, S) == PrintT(<<"SCN", ToJson([set |-> name, elems |-> SetToSeq(S)])>>)
 ASSUME /\ Out("tables5", Tables5) /\ Out("wheres5", Wheres5) /\ Out("listorders5", ListOrders5) /\ Out("limoffs", LimOffs)
        /\ Out("dbs6", Dbs6) /\ Out("froms6", Froms6) /\ Out("fromsalias6", FromsAlias6) /\ Out("lists6", Lists6)
-       /\ Out("listsalias6", ListsAlias6) /\ Out("wheres6", Wheres6)
+       /\ Out("listsalias6", ListsAlias6) /\ Out("wheres6", Wheres6) /\ Out("fromssame6", FromsSame6) /\ Out("listssame6", ListsSame6)
        /\ Out("tables7", Tables7) /\ Out("listgroups7", ListGroups7) /\ Out("wheres7", Wheres7)
        /\ Out("joinlistgroups7", JoinListGroups7) /\ Out("fromself7", {FromSelf7})
 Init == x = 0
